@@ -45,6 +45,7 @@ type ChannelMetricsState struct {
 type Channel struct {
 	deliveryTag        uint64
 	confirmDeliveryTag uint64
+	instance           uint64 // uses of this channel number so far: a confirmation of a previous use must not reach the current one
 	active             bool
 	confirmMode        bool
 	id                 uint16
@@ -483,7 +484,7 @@ func (channel *Channel) addConfirm(meta *amqp.ConfirmMeta) {
 	channel.confirmLock.Lock()
 	defer channel.confirmLock.Unlock()
 
-	if channel.status == channelClosed {
+	if channel.status == channelClosed || meta.ChanInstance != atomic.LoadUint64(&channel.instance) {
 		return
 	}
 	channel.confirmQueue = append(channel.confirmQueue, meta)
@@ -576,6 +577,7 @@ func (channel *Channel) close() {
 
 // reset gives a closed channel, whose number the client opens again, the state of a new one
 func (channel *Channel) reset() {
+	atomic.AddUint64(&channel.instance, 1)
 	atomic.StoreUint64(&channel.deliveryTag, 0)
 	atomic.StoreUint64(&channel.confirmDeliveryTag, 0)
 	channel.active = true
